@@ -13,6 +13,9 @@ import XalanModel.C04.CDataTopProofs
 import XalanModel.C04.IndentWsProofs
 import XalanModel.C04.DocProofs
 import XalanModel.C04.DocReaderProofs9
+import XalanModel.C04.PrologProofs
+import XalanModel.C04.IndentTextProofs
+import XalanModel.C04.IndentTreeProofs
 /-!
 # C04 — XML output is well-formed and parses back to exactly the result tree
 
@@ -346,6 +349,55 @@ theorem indent_never_after_text (e : Enc) (ha : AsciiOk e) (s : IndSt) :
       ((s.isprevtext = true ∨ s.ispreserve = true ∨ s.on = false) → it = []) :=
   indentItems_ws e ha s
 
+/-- Indentation is a SAX filter.  `decorEvents` is a pure function of the event sequence (it tracks only the
+`XalanIndentWriter` state and the element stack, `nextSt`) that puts an explicit `characters` event carrying the
+line feed and spaces (`wsBefore`) in front of a start tag, an end tag of an element with content, a comment or a PI.
+For every configuration and every event sequence on which the indenting serializer succeeds, the plain serializer
+succeeds on the filtered sequence and writes the same code units, unit for unit; the only difference is what
+`endDocument` appends after the last event (`endWs`: the final line break, after the root element).  So everything
+indentation adds inside the document is character data of the SAX stream, never part of a tag, comment, PI or CDATA
+section. -/
+theorem indent_is_whitespace_text (c : Cfg) (H : DocHyp c) (evs : List Event) (st : List Bool) (s : IndSt) (items : List Item)
+    (h : runEventsI c evs st s = .ok items) :
+    ∃ items', runEvents c (decorEvents evs st s) st = .ok items' ∧ unitsOf items = unitsOf items' ++ endWs evs st s :=
+  runEventsI_filter c H evs st s items h
+
+/-- The same on trees: the filtered events of a tree are the events of the *decorated* tree (`decorNode`: whitespace-only
+text nodes in front of element / comment / PI children and as last child in front of an end tag), and erasing
+whitespace-only text children (`dropWs`) from the decorated tree gives the same as erasing them from the tree itself:
+nothing but whitespace-only text children is added, nothing is removed or reordered. -/
+theorem indent_tree_decoration (t : XNode) (st : List Bool) (s : IndSt) :
+    decorEvents (events t) st s = eventsL (decorNode st s t).1 ∧ dropWsL (decorNode st s t).1 = dropWsL [t] := by
+  have h := decor_events t st s []
+  simp only [List.append_nil, decorEvents] at h
+  exact ⟨h, decor_dropWs t st s⟩
+
+/-- Tree-level indent erasure (`indent="yes"`, any indent amount).  For every document element `t` that satisfies the
+hypotheses of `document_roundtrip`: the indenting serializer succeeds on the UTF-16 form of `t`; its code units decode
+strictly to `out ++ trail`, where `trail` (`endWs`) is the line break `endDocument` writes after the root element; the
+document reader reads `out` back as exactly `t'`, the decorated tree; `t'` is `t` with whitespace-only text children
+added and nothing else changed (`dropWs t' = dropWs t`); and `t'` again has no two adjacent character-data children
+(`RTreeOk`), i.e. no added whitespace node has a text or CDATA neighbour — existing character data is never extended.
+So: parse of the indented output = the tree, modulo inserted whitespace-only text where no text neighbour exists. -/
+theorem indent_tree_roundtrip (c : Cfg) (H : DocHyp c) (amount : Nat) (n : List Nat) (a : List (List Nat × List Nat))
+    (kids : List XNode) (hok1 : TreeOk c.ver c.enc (.elem n a kids)) (hok2 : RTreeOk c.ver (.elem n a kids)) :
+    ∃ items kids' out,
+      runEventsI c (events (toUnits (.elem n a kids))) [] { on := true, amount := amount } = .ok items ∧
+      (decorNode [] { on := true, amount := amount } (.elem n a kids)).1 = [.elem n a kids'] ∧
+      dropWs (.elem n a kids') = dropWs (.elem n a kids) ∧
+      RTreeOk c.ver (.elem n a kids') ∧
+      Spec.decodeOut c.enc.kind (unitsOf items) =
+        some (out ++ endWs (events (toUnits (.elem n a kids))) [] { on := true, amount := amount }) ∧
+      Spec.readDoc c.ver out = some (Spec.norm (.elem n a kids')) :=
+  XalanModel.C04.indent_tree_roundtrip c H amount n a kids hok1 hok2
+
+/-- the decoration is not vacuous: `<r><a/>x<b/><c/></r>` with indent amount 1 becomes
+`<r>⏎␣<a/>x<b/>⏎␣<c/>⏎</r>` — nothing next to the text `x`, whitespace children elsewhere -/
+example : (decorNode [] { on := true, amount := 1 }
+      (.elem [114] [] [.elem [97] [] [], .text [120], .elem [98] [] [], .elem [99] [] []])).1 =
+    [.elem [114] [] [.text [10, 32], .elem [97] [] [], .text [120], .elem [98] [] [], .text [10, 32], .elem [99] [] [], .text [10]]] := by
+  rfl
+
 example : InsertsWs [60, 114, 62, 10, 32, 60, 97, 47, 62, 10, 60, 47, 114, 62, 10] [60, 114, 62, 60, 97, 47, 62, 60, 47, 114, 62] := by
   refine .keep _ (.keep _ (.keep _ (.ins _ (Or.inl rfl) (.ins _ (Or.inr rfl) (.keep _ (.keep _ (.keep _ (.keep _
     (.ins _ (Or.inl rfl) (.keep _ (.keep _ (.keep _ (.keep _ (.ins _ (Or.inl rfl) .nil))))))))))))))
@@ -446,6 +498,46 @@ theorem document_roundtrip (c : Cfg) (H : DocHyp c) (n : List Nat) (a : List (Li
   refine ⟨items, out, h1, ?_, readDoc_absNode c.ver (canEncOf c.enc) (spaceBeforeClose c) n a kids hok2 out h2⟩
   rw [h3]
   exact decodeOut_encodeOut c.enc.kind out (node_sc c.ver c.enc (spaceBeforeClose c) _ hok1 out h2)
+
+/-- The whole document, prolog included.  For every configuration whose `encoding` name, `standalone` value and
+DOCTYPE identifiers are printable ASCII without `"`, `>`, `?` (`Printable`; what `xsl:output` can sensibly carry) and
+every tree as in `document_roundtrip` (the root name ASCII when a DOCTYPE is written, because `m_writer.write(name)`
+of the transcoding writer goes unit by unit): everything `startDocument … endDocument` writes — XML declaration
+(with `standalone`, or omitted), the line break, `<!DOCTYPE name PUBLIC "…" "…">` / `SYSTEM`, the root element —
+decodes strictly to a character sequence which the document reader *with its prolog steps* (`Spec.readDocument`:
+skip one `<?xml …?>`, one line break, one `<!DOCTYPE … >` and its line break, then `readDoc`) reads back as
+exactly the tree. -/
+theorem document_roundtrip_prolog (c : Cfg) (H : DocHyp c)
+    (hE : Printable c.encName) (hS : Printable c.standalone) (hP : Printable c.doctypePublic) (hY : Printable c.doctypeSystem)
+    (n : List Nat) (a : List (List Nat × List Nat)) (kids : List XNode)
+    (hN : c.doctypeSystem.isEmpty = false → Ascii n)
+    (hok1 : TreeOk c.ver c.enc (.elem n a kids)) (hok2 : RTreeOk c.ver (.elem n a kids)) :
+    ∃ items out, serializeItems c (events (toUnits (.elem n a kids))) = .ok items ∧
+      Spec.decodeOut c.enc.kind (unitsOf items) = some out ∧
+      Spec.readDocument c.ver out = some (Spec.norm (.elem n a kids)) := by
+  obtain ⟨h, hh1, hh2, hhA⟩ := header_enc c H.ha hE hS
+  obtain ⟨d, hd1, hd2, hdA⟩ := doctype_enc' c H.ha hP hY n hN
+  obtain ⟨items, body, h1, h2, h3⟩ := node_enc c H (.elem n a kids) hok1
+  obtain ⟨rest, hb⟩ := absNode_elem_shape _ _ _ n a kids body h2
+  have hsc := node_sc c.ver c.enc (spaceBeforeClose c) _ hok1 body h2
+  refine ⟨h ++ d ++ items, absHeader c ++ absDoctype c n ++ body, ?_, ?_, ?_⟩
+  · rw [document_structure, hh1]
+    have : rootDoctype c (toUnits (.elem n a kids)) = doctypeItems c (Spec.utf16Encode n) := by simp [toUnits, rootDoctype]
+    rw [this, hd1, h1]; rfl
+  · have : unitsOf (h ++ d ++ items) = Spec.encodeOut c.enc.kind (absHeader c ++ absDoctype c n ++ body) := by
+      simp only [unitsOf_append, encodeOut_append, hh2, hd2, h3]
+    rw [this]
+    apply decodeOut_encodeOut
+    intro x hx
+    rcases List.mem_append.mp hx with hx | hx
+    · rcases List.mem_append.mp hx with hx | hx
+      · exact ascii_scalar _ hhA x hx
+      · exact ascii_scalar _ hdA x hx
+    · exact hsc x hx
+  · have hg : GoodName c.ver n := by simp only [RTreeOk] at hok2; exact hok2.1
+    unfold Spec.readDocument
+    rw [hb, strip_prolog c hE hS hP hY n hg rest, ← hb]
+    exact readDoc_absNode c.ver (canEncOf c.enc) (spaceBeforeClose c) n a kids hok2 body h2
 
 /-- the reader-side hypothesis is satisfiable by a tree that exercises every construct:
 `<r k="&quot;é"><a/>&lt;𝒳<!--x--><![CDATA[]]>é]]><?p d?></r>` (its `TreeOk` is the example after `document_encoding`) -/
